@@ -433,6 +433,12 @@ bool type_implements_method_at_offset(var self, var cls, size_t offset) {
 
 static var Type_Instance(var self, var cls) {
 
+#if CELLO_NULL_CHECK == 1
+  if (self is NULL) {
+    return throw(ValueError, "Received NULL as type to look up an instance on");
+  }
+#endif
+
 #if CELLO_CACHE == 1
   Type_Cache_Entry( 0, Size);    Type_Cache_Entry( 1, Alloc);
   Type_Cache_Entry( 2, New);     Type_Cache_Entry( 3, Assign);
